@@ -517,7 +517,8 @@ fn mk_relation(v: &Value) -> debian_control::lossless::relations::Relation {
     match v["how"].as_str().unwrap_or("parse") {
         "new" => Relation::new(&name, ver),
         "builder" => { let mut b = Relation::build(&name); if let Some((c, x)) = ver { b = b.version_constraint(c, x); } b.build() }
-        _ => { let t = match &ver { Some((c, x)) => format!("{} ({} {})", name, c, x), None => name.clone() }; t.parse().unwrap() }
+        _ => { let pad = if v["pad"].as_bool().unwrap_or(false) { " " } else { "" };
+               let t = match &ver { Some((c, x)) => format!("{} ({} {}){}", name, c, x, pad), None => format!("{}{}", name, pad) }; t.parse().unwrap() }
     }
 }
 
